@@ -49,9 +49,9 @@ class Verifier(Engine):
             v = self.fresh(st, p['type'], 'p.' + p['name'])
             args.append(v)
         bind = [self.fresh(st, p['type'], 'fv.' + p['name']) for p in fn.freevars]
-        if fn.j.get('recv') and args and z3.is_expr(args[0]) and self.K(fn.params[0]['type']) == 'ptr':
+        if fn.j.get('recv') and args and z3.is_expr(args[0]) and self.K(fn.params[0]['type']) == 'ptr' and 'nilable' not in c.flags:
             st.assume(args[0] != 0)
-            self.assumptions.add('pointer receivers are non-nil')
+            self.assumptions.add('pointer receivers are non-nil (owed by every direct caller: safety.nilrecv obligations; assumed for calls through interfaces and function values)')
         # free variables that are cells of the enclosing function: model as fresh cells
         bind2 = []
         for p, v in zip(fn.freevars, bind):
